@@ -191,7 +191,35 @@ func (t *goTr) call(x *SExpr) string {
 		return "verifSameSlice(" + arg(0) + ", " + arg(1) + ")"
 	case "fresh":
 		return "verifFresh(" + arg(0) + ")"
-	case "base", "off", "ms", "arrOf", "allocated", "wasAllocated", "preserved", "unchanged", "typeIs", "ifaceVal":
+	case "typeIs", "asPtr":
+		if len(x.Args) != 2 || x.Args[1].Kind != SStr {
+			nx("%s(x, \"*T\")", x.Name)
+		}
+		if x.Name == "asPtr" {
+			return arg(0)
+		}
+		toks, err := lexSpec(x.Args[1].Lit)
+		if err != nil {
+			nx("%v", err)
+		}
+		sp := &sparser{toks: toks, src: x.Args[1].Lit}
+		te, err := sp.typeExpr()
+		if err != nil {
+			nx("%v", err)
+		}
+		sc := &Scope{vc: &VC{e: t.e}, pkg: t.pkg}
+		var ty types.Type
+		func() {
+			defer func() {
+				if r := recover(); r != nil {
+					nx("unknown type %s", te)
+				}
+			}()
+			ty = sc.resolveType(te)
+		}()
+		tn := types.TypeString(ty, func(p *types.Package) string { return p.Name() })
+		return "verifTypeIs(" + arg(0) + ", " + fmt.Sprintf("%q", tn) + ")"
+	case "base", "off", "ms", "arrOf", "allocated", "wasAllocated", "preserved", "unchanged", "ifaceVal":
 		nx("%s() has no executable meaning", x.Name)
 	}
 	if g, ok := goUFuncs[x.Name]; ok {
@@ -565,6 +593,8 @@ func verifMod(a, b interface{}) interface{} {
 }
 
 func verifIsNilIface(x interface{}) bool { return x == nil }
+
+func verifTypeIs(x interface{}, typ string) bool { return x != nil && reflect.TypeOf(x).String() == typ }
 
 func verifCmp(op string, a, b interface{}) bool {
 	x, y := verifF(a), verifF(b)
